@@ -264,6 +264,8 @@ def _symbolic_for(interp, s, frame, state, space):
             interp.exec_body_single(s.orelse, frame)
         return
     written = interp.loop_hints.get(key) or interp.loop_hints.get((frame.fname, "for", ast.unparse(s.iter)))
+    if written is None and getattr(item_fn, "guard", None) is not None:
+        written = interp.loop_hints.get((frame.fname, "for", "<mask-selection>"))
     if written is not None:
         return written(interp, s, frame, st, lo, hi, item_fn)
     if getattr(item_fn, "guard", None) is not None:
